@@ -166,7 +166,18 @@ func (b *exampleBuilder) buildExampleForMixedValueNode(node *internalSchema.Mixe
 		return nil, errors.ErrLoader
 	}
 
-	typeName := tt[0]
+	// The first alternative that yields an example is used: an alternative
+	// which only leads back into a type being processed yields nothing.
+	for _, typeName := range tt {
+		ex, err := b.buildExampleForType(node, typeName)
+		if err != nil || ex != nil {
+			return ex, err
+		}
+	}
+	return nil, nil
+}
+
+func (b *exampleBuilder) buildExampleForType(node *internalSchema.MixedValueNode, typeName string) ([]byte, error) {
 	if !bytes.Bytes(typeName).IsUserTypeName() {
 		return node.Value(), nil
 	}
